@@ -164,8 +164,13 @@ def explore(run):
                 batch_cases(run, sc, g, files, i)
                 if run.full():
                     return
+        extobj_probe(run, sc)
+        if run.full():
+            return
         if thorough:
             big(run, sc)
+        else:
+            big_plain(run, sc)
 
 
 def big(run, sc):
@@ -175,6 +180,75 @@ def big(run, sc):
     files = D.serialise(rng, g)
     run.case({"big": len(g["nodes"])}, tag="big")
     PC.check_set(run, sc, g, files, None, ["nodes"], "big", model=False)
+
+
+def extobj_probe(run, sc):
+    """typed Value of a variable holding an ExtensionObject whose TypeId is NOT one of the two structures the parser
+    decodes (Range i=885 / EUInformation i=888 in namespace 0): it stays an extension object with that type id and body,
+    whatever its numeric identifier and namespace"""
+    import os
+    from opcua_tools.nodeset_parser import parse_xml_files
+    rng = run.rng
+    T = "http://opcfoundation.org/UA/2008/02/Types.xsd"
+    cases = [(ns_, i_) for ns_ in (1, 2) for i_ in (885, 888, 887, 12345)] + [(0, 889), (0, 12345)]
+    rng.shuffle(cases)
+    nodes = []
+    for j, (ns_, i_) in enumerate(cases):
+        tid = ("ns=%d;" % ns_ if ns_ else "") + "i=%d" % i_
+        nodes.append('<UAVariable NodeId="ns=1;i=%d" BrowseName="1:x%d" DataType="i=22"><DisplayName>x%d</DisplayName>'
+                     '<Value><ExtensionObject xmlns="%s"><TypeId><Identifier>%s</Identifier></TypeId><Body><v:Curve xmlns:v="urn:vendor" k="%d"><v:p>1</v:p></v:Curve></Body></ExtensionObject></Value></UAVariable>'
+                     % (100 + j, j, j, T, tid, j))
+    text = ('<?xml version="1.0" encoding="utf-8"?>\n<UANodeSet xmlns="http://opcfoundation.org/UA/2011/03/UANodeSet.xsd">'
+            '<NamespaceUris><Uri>urn:x</Uri><Uri>urn:y</Uri></NamespaceUris><Aliases/>' + "".join(nodes) + "</UANodeSet>")
+    d = sc.sub("extobj")
+    path = os.path.join(d, "e.xml")
+    open(path, "w", encoding="utf-8").write(text)
+    case = {"files": {"e.xml": text}}
+    run.case({"extobj_probe": len(cases)}, tag="extobj")
+    run.compared += 1
+    try:
+        out = parse_xml_files([path])
+    except Exception as e:  # noqa: BLE001
+        run.violation(case, {"what": "parse raised on extension-object values: %s: %s" % (type(e).__name__, str(e)[:200])})
+        return
+    vals = {int(n.value): v for n, v in zip(out["nodes"]["NodeId"], out["nodes"]["Value"])}
+    for j, (ns_, i_) in enumerate(cases):
+        v = vals.get(100 + j)
+        ok = type(v).__name__ == "UAExtensionObject" and v.type_nodeid.namespace == ns_ and str(v.type_nodeid.value) == str(i_) \
+            and "Curve" in str(getattr(v.body, "value", "")) and 'k="%d"' % j in str(getattr(v.body, "value", ""))
+        if not ok:
+            run.violation(case, {"what": "the Value of a variable holding an ExtensionObject with TypeId %s is not that extension object" %
+                                 (("ns=%d;" % ns_ if ns_ else "") + "i=%d" % i_), "impl": repr(v)[:300]})
+            return
+
+
+def big_plain(run, sc):
+    """a plain document with more node elements than one parser batch holds (100 000 events = 50 000 elements):
+    one row per element, in order, none lost or repeated at the batch boundary"""
+    import os
+    from opcua_tools.nodeset_parser import parse_xml_files
+    n = 50000 + run.rng.randint(3, 40)
+    head = ('<?xml version="1.0" encoding="utf-8"?>\n<UANodeSet xmlns="http://opcfoundation.org/UA/2011/03/UANodeSet.xsd">'
+            '<NamespaceUris><Uri>urn:big</Uri></NamespaceUris><Aliases><Alias Alias="Organizes">i=35</Alias></Aliases>\n')
+    body = "".join('<UAObject NodeId="ns=1;i=%d" BrowseName="1:n%d"><DisplayName>d%d</DisplayName></UAObject>\n' % (j, j, j) for j in range(1, n + 1))
+    d = sc.sub("bigplain")
+    path = os.path.join(d, "big.xml")
+    open(path, "w", encoding="utf-8").write(head + body + "</UANodeSet>\n")
+    case = {"big_plain": n}
+    run.case(case, tag="big")
+    run.compared += 1
+    try:
+        out = parse_xml_files([path])
+    except Exception as e:  # noqa: BLE001
+        run.violation(case, {"what": "parse_xml_files raised on a plain document of %d node elements (more than one parser batch): %s: %s" % (n, type(e).__name__, str(e)[:200])})
+        return
+    nodes = out["nodes"]
+    ids = [int(x.value) for x in nodes["NodeId"]]
+    names = nodes["DisplayName"].tolist()
+    if ids != list(range(1, n + 1)) or names != ["d%d" % j for j in range(1, n + 1)] or nodes["BrowseName"].tolist() != ["n%d" % j for j in range(1, n + 1)]:
+        bad = next((j for j in range(min(len(ids), n)) if ids[j] != j + 1), None)
+        run.violation(case, {"what": "the nodes table of a %d-element document does not hold one faithful row per element, in order (rows: %d, first wrong row: %r)" % (n, len(ids), bad)})
+    os.remove(path)
 
 
 def search_missing(run, disagreements):
